@@ -38,6 +38,12 @@ def groups(n, seed):
                   step_control_type=gen.CTLS[(i // 2) % 4])
         ps = ("repo", ["hs71c", "tame", "hs71"][i % 3]) if i % 2 == 0 else family_spec(5 * i + 2, rng)
         gs.append({"tag": "C16.tinyrho", "runs": [{"prob": ps, "params": pk, "y0scale": [None, 1.0, 100.0][i % 3]}]})
+    # evaluation faults at trial points during the dual-norm ramp-up: a discarded trial must not move the policy
+    for i in range(max(10, n // 8)):
+        pk = dict(penalty_update=gen.PENS[1], rho=1e-8, iteration_limit=40, display_interval=1e9, step_control_type=gen.CTLS[i % 4])
+        ps = ("repo", ["tame", "hs71c", "hs71"][i % 3])
+        gs.append({"tag": "C16.faults", "runs": [{"prob": ps, "params": pk, "y0scale": [None, 10.0][i % 2],
+                                                  "fault": ("transient", ["obj", "cons", None][i % 3], int(rng.integers(3, 60)), "nan")}]})
     return gs
 
 
